@@ -98,8 +98,14 @@ AnyBind(sc, c, v) == TRUE
 RefF == [ Base EXCEPT !.sel = <<"m","f">>, !.pos = <<"p","q">>, !.npd = 2, !.dflt = {<<"p", D("p")>>, <<"q", D("q")>>} ]
 RefG == [ Base EXCEPT !.sel = <<"m","g">>, !.pos = <<"x">>, !.npd = 1, !.dflt = {<<"x", D("x")>>}, !.api = "external" ]
 RefH == [ Base EXCEPT !.sel = <<"m","h">>, !.kind = "cls", !.pos = <<"x">>, !.npd = 1, !.dflt = {<<"x", D("x")>>}, !.api = "register" ]
+\* a consumer with a keyword-only parameter and a catch-all: caller keywords for such names override bindings too
+RefK == [ Base EXCEPT !.sel = <<"m","k">>, !.pos = <<"p">>, !.npd = 1, !.kwo = <<"k">>, !.kwd = {"k"}, !.vk = TRUE,
+                      !.dflt = {<<"p", D("p")>>, <<"k", D("k")>>} ]
 RefConfs == {RefF, RefG, RefH}
 RefRegs == {RefConfs}
+RefConfsK == {RefF, RefG, RefH, RefK}
+RefRegsK == {RefConfs, {RefK, RefG, RefH}}
+RefRegsKOnly == {{RefK, RefG, RefH}}
 R(sel, sc, ev) == <<"ref", sel, sc, ev>>
 GCall == R(<<"m","g">>, <<>>, "call")
 GCallA == R(<<"m","g">>, <<"a">>, "call")
@@ -116,7 +122,9 @@ RefValsF == Nest2 \cup { L1, GCall, GCallA, GBare, GBareA, HCall,
               <<"tuple", << <<"list", <<GBare>>>>, GCall >>>> }
 RefValsG == { L1, L2, HCall, HCallB, <<"list", <<HCall>>>> }
 RefValsH == { L1, L2 }
+RefValsK == { L1, GCall, GCallA, <<"list", <<GCall, L1, GCall>>>> }
 RefFilter(sc, c, v) ==
+  \/ c.sel = <<"m","k">> /\ v \in RefValsK
   \/ c.sel = <<"m","f">> /\ v \in RefValsF
   \/ c.sel = <<"m","g">> /\ v \in RefValsG
   \/ c.sel = <<"m","h">> /\ v \in RefValsH
@@ -124,6 +132,7 @@ RefBindVals == RefValsF \cup RefValsG \cup RefValsH
 RefBindValsQuick == (RefValsF \ Nest2) \cup RefValsG \cup RefValsH \cup { Wrap("tuple", Wrap("tuple", GCall)), Wrap("dict", Wrap("list", GCall)) }
 RefFilterQuick(sc, c, v) == RefFilter(sc, c, v) /\ v \in RefBindValsQuick
 NamesRefs == <<"p", "q", "x">>
+NamesRefsK == <<"k", "p", "q", "x", "z">>
 RefSpellings == { <<"m","f">>, <<"f">>, <<"g">>, <<"h">>, <<"nope">> }
 
 ------------------------------------------------------------------------------
